@@ -383,6 +383,62 @@ def merged_set_var(m):
 _run_c20 = run
 
 
+def r206(ctx, R):
+    """What limit_results selected is what the response carries: the
+    serialisers render exactly one element per allocation request (nothing
+    is skipped, merged or added after the limit was applied)."""
+    prog = ctx.prog
+    HC = 'placement.handlers.allocation_candidate'
+    n = 0
+    for q in (HC + ':_transform_allocation_requests_dict',
+              HC + ':_transform_allocation_requests_list'):
+        f = prog.func(q)
+        n += 1
+        g = cfgmod.cfg_of(f)
+        rets = [r for r in own_nodes(f.node) if isinstance(r, ast.Return)]
+        res = rets[0].value.id if len(rets) == 1 and isinstance(
+            rets[0].value, ast.Name) else None
+        loops = [x for x in own_nodes(f.node) if isinstance(x, ast.For)
+                 and src(x.iter) == f.params[0]]
+        ok = res is not None and len(loops) == 1
+        why = 'returns %s, %d loops over the requests' % (res, len(loops))
+        if ok:
+            lp = loops[0]
+            apps = [c for c in own_nodes_of(lp) if isinstance(c, ast.Call)
+                    and isinstance(c.func, ast.Attribute)
+                    and c.func.attr in ('append', 'extend', 'insert')
+                    and src(c.func.value) == res]
+            skips = [x for x in own_nodes_of(lp)
+                     if isinstance(x, (ast.Continue, ast.Break))
+                     and _innermost_loop(x, f.node) is lp]
+            one = len(apps) == 1 and apps[0].func.attr == 'append' and \
+                any(C.stmt_of(apps[0]) is st for st in lp.body)
+            # nothing else touches the result list
+            other = [c for c in own_nodes(f.node) if isinstance(c, ast.Call)
+                     and isinstance(c.func, ast.Attribute)
+                     and src(c.func.value) == res and c not in apps]
+            init = c05.single_def(f, res)
+            ok = one and not skips and not other and init is not None and \
+                isinstance(init.value, ast.List) and not init.value.elts
+            why = 'appends=%d (top level of the loop: %s), skips=%d, ' \
+                'other uses=%d' % (len(apps), one, len(skips), len(other))
+        R.ob('R20.6', '%s:one-element-per-request' % f.qbase.split(':')[1],
+             ok, 'the serialiser appends exactly one element for every '
+             'allocation request it is given', why, func=f)
+    # and the handler hands it the limited list unchanged
+    R.count('R20.6', n, 2)
+
+
+def _innermost_loop(node, stop):
+    cur = getattr(node, '_parent', None)
+    while cur is not None and cur is not stop:
+        if isinstance(cur, (ast.For, ast.While)):
+            return cur
+        cur = getattr(cur, '_parent', None)
+    return None
+
+
 def run(ctx, R):
     _run_c20(ctx, R)
     r205(ctx, R)
+    r206(ctx, R)
